@@ -222,6 +222,27 @@ def parse_sel(s: str) -> bool:
     return _parse_sel(s)
 
 
+TOKENS = ['', 'None', '0', '3', '-2', ' 4 ', 'N', 'one', 'x', '1.5', 'No', '+7']
+
+
+def parse_tokens(nparts: int, p0: int, p1: int, p2: int, p3: int) -> bool:
+    """
+    pre: 1 <= nparts <= 4
+    pre: 0 <= p0 <= 11 and 0 <= p1 <= 11 and 0 <= p2 <= 11 and 0 <= p3 <= 2
+    pre: (nparts >= 2 or p1 == 0) and (nparts >= 3 or p2 == 0) and (nparts >= 4 or p3 == 0)
+    pre: PART < 0 or p0 == PART
+    post: _
+    """
+    # option strings assembled from whole tokens (numbers, None, empty, words that are fragments of 'None', signs, decimals): concrete
+    # strings, so that the parser runs natively (CrossHair 0.0.110 cannot trace every str operation on symbolic strings)
+    nparts, p0 = mark.pick(nparts, 1, 4), mark.pick(p0, 0, 11)
+    p1 = mark.pick(p1, 0, 11) if nparts >= 2 else 0
+    p2 = mark.pick(p2, 0, 11) if nparts >= 3 else 0
+    p3 = mark.pick(p3, 0, 2) if nparts >= 4 else 0
+    with mark.untraced():
+        return _parse_sel(','.join([TOKENS[p] for p in (p0, p1, p2, p3)][:nparts]))
+
+
 def _parse_sel(s):
     mark.hit()
     try:
